@@ -444,7 +444,9 @@ static void run_C10big(const Args &a, long cs) {
 	Problem p; p.nd = 2; p.ntot = 1; p.kind = "large-monotonic"; uint32_t monodim = (uint32_t)r.below(2);
 	for (int d = 0; d < 2; d++) { uint32_t o = (uint32_t)r.range(1, 2); int n = 36 + (int)r.below(32); int nk = n + o + 1; std::vector<double> k(nk); double x = -1.0 + r.U(); for (int i = 0; i < nk; i++) { k[i] = x; x += 0.8 + 0.4 * r.U(); }
 		p.ord.push_back(o); p.kn.push_back(k); p.n.push_back(n); p.ntot *= (size_t)n; p.por.push_back((uint32_t)r.range(1, (int)o)); p.lam.push_back(r.coin(0.5) ? 0.0 : 1e-8);
-		int np = n + 2 + (int)r.below(4); std::vector<double> c(np); for (int i = 0; i < np; i++) c[i] = k[0] + (k[nk - 1] - k[0]) * (0.002 + 0.996 * (i + 0.5) / np); p.co.push_back(c); }
+		// abscissae: one at the Greville site of every basis function (so that each has data inside its support and the normal matrix of the full grid is positive
+		// definite by construction - there is no dense oracle here to sort out ill-posed problems) plus a few more, sorted
+		int np = n + 2 + (int)r.below(4); std::vector<double> c(np); for (int i = 0; i < np; i++) { if (i < n && !a.extra.count("uniform-abscissae")) { double gsum = 0; for (uint32_t j = 1; j <= o; j++) gsum += k[i + j]; c[i] = gsum / o; } else c[i] = a.extra.count("uniform-abscissae") ? k[0] + (k[nk - 1] - k[0]) * (0.002 + 0.996 * (i + 0.5) / np) : k[0] + (k[nk - 1] - k[0]) * (0.01 + 0.98 * r.U()); c[i] = std::min(std::max(c[i], k[0] + 1e-9), k[nk - 1] - 1e-9); } std::sort(c.begin(), c.end()); p.co.push_back(c); }
 	double span = p.kn[monodim].back() - p.kn[monodim][0], lo = p.kn[monodim][0]; int ndips = r.range(2, 6); std::vector<double> dc, dw, da; for (int i = 0; i < ndips; i++) { dc.push_back(lo + span * r.U()); dw.push_back(span * (0.01 + 0.04 * r.U())); da.push_back(std::pow(10.0, -(double)r.range(3, 6))); }
 	double scale = std::pow(10.0, (double)r.range(-3, 3));
 	std::vector<unsigned> I(2); for (unsigned i = 0; i < p.co[0].size(); i++) for (unsigned j = 0; j < p.co[1].size(); j++) { I[0] = i; I[1] = j; double t = (p.co[monodim][I[monodim]] - lo) / span, u = p.co[1 - monodim][I[1 - monodim]];
@@ -452,7 +454,7 @@ static void run_C10big(const Args &a, long cs) {
 		p.idx.push_back(I); p.y.push_back(v * scale); p.w.push_back(1.0); }
 	std::string pj = prob_brief(p); context(pj); count("large-monotonic-problems"); count("large-monotonic:coefficients", (long)p.ntot); count("monodim:" + std::to_string(monodim));
 	photospline::ndsparse *data = make_data(p); Table T; phase_log("fit(monodim) (large table)");
-	try { T.fit(*data, p.w, p.co, p.ord, p.kn, p.lam, p.por, monodim, false); } catch (std::exception &e) { viol("C10:fit(monodim,large-table):threw", "{\"what\":" + jstr(e.what()) + ",\"problem\":" + pj + "}"); delete data; return; }
+	try { T.fit(*data, p.w, p.co, p.ord, p.kn, p.lam, p.por, a.extra.count("no-monodim") ? Table::no_monodim : monodim, getenv("VF_FIT_VERBOSE") != nullptr); } catch (std::exception &e) { viol("C10:fit(monodim,large-table):threw", "{\"what\":" + jstr(e.what()) + ",\"problem\":" + pj + "}"); delete data; return; }
 	delete data; const float *c = T.get_coefficients(); size_t inner = monodim == 0 ? (size_t)p.n[1] : 1; int nm = p.n[monodim]; long dec = 0; double worst = 0; size_t wi = 0; bool fin = true;
 	for (size_t i = 0; i < p.ntot; i++) { if (!std::isfinite(c[i])) fin = false; int j = (int)((i / inner) % nm); if (j + 1 < nm && c[i + inner] < c[i]) { dec++; double dlt = (double)c[i] - (double)c[i + inner]; if (dlt > worst) { worst = dlt; wi = i; } } }
 	count("large-monotonic-fits"); count("large-monotonic:coefficient-steps-checked", (long)(p.ntot - p.ntot / nm)); uint64_t h = hash_mix(1010, p.ntot); for (size_t i = 0; i < p.y.size(); i += 97) h = hash_d(h, p.y[i]); distinct(h);
